@@ -213,6 +213,19 @@ def jobs(tier, seed):
         cx = [B.rterm(rng, names, zero_alpha, must=elim if rng.random() < 0.8 else None) for _ in range(nc)]
         order = rng.choice(orders)
         out.append({"kind": "C-random", "terms": terms, "ctx": cx, "elim": elim, "refine": rng.random() < 0.5, "simplify": rng.random() < 0.5, "tactics": order})
+    # family I: a term that agrees with a context row up to the sixth digit of one coefficient (simplify=True first
+    # removes from the list what the context "already contains": nearly equal is not equal)
+    for _ in range(24 if tier == "quick" else 400):
+        row = B.rterm(rng, ["x", "y"], [-2, -1, 1, 2])
+        near = dict(row)
+        k0 = rng.choice(sorted(near))
+        near[k0] = near[k0] * (1 + 8e-6)
+        sg = rng.choice([1, -1])
+        t_elim = {"z": sg, rng.choice(["x", "y"]): rng.choice([-1, 1])}
+        cx = [row, {"z": -sg}] + ([{"z": sg}] if rng.random() < 0.5 else [])
+        terms = [near, t_elim]
+        rng.shuffle(terms)
+        out.append({"kind": "I-near-context", "terms": terms, "ctx": cx, "elim": ["z"], "refine": rng.random() < 0.7, "simplify": True, "tactics": rng.choice([[1, 2, 3, 4, 5], [1], [2], [5]])})
     return out
 
 
